@@ -28,6 +28,7 @@ def rules(ctx):
     C02.c024(ctx)
     C06.c064(ctx)
     c015(ctx)
+    c016(ctx)
     # a key (or tombstone) missing from an SST's bloom filter makes Sst::load miss it and the search fall through to
     # an older version: the builder-side accumulation rule of C10.2 is a necessary condition of point reads too
     from . import C10
@@ -49,6 +50,55 @@ def rules(ctx):
     C13.c135(ctx)
     C08.c084(ctx)
     C08.c086(ctx)   # an ingest installs on top of the current version, not a snapshot from before its stall wait
+
+
+def c016(ctx):
+    R = "C01.6"
+    ctx.declare(R, "two compactions conflict exactly when their level ranges and their key ranges both intersect (closed intervals): the "
+                   "predicate is read from MIR as a conjunction of four <= comparisons")
+    f = ctx.fn(R, "lsmtk::tree::CompactionCore::overlapping")
+    if not f:
+        return
+    atoms, why = K.conjunction_of_comparisons(f)
+    if atoms is None:
+        ctx.violate(R, f, "conflict-predicate", "CompactionCore::overlapping cannot be read as a conjunction of comparisons: %s" % why)
+        return
+    norm = set()
+    for (op, a, b) in atoms:
+        if op in ("Ge", "Gt"):
+            op, a, b = {"Ge": "Le", "Gt": "Lt"}[op], b, a
+        norm.add((op, a, b))
+    want = {("Le", (1, ("lower_level",)), (2, ("upper_level",))), ("Le", (2, ("lower_level",)), (1, ("upper_level",))),
+            ("Le", (1, ("first_key",)), (2, ("last_key",))), ("Le", (2, ("first_key",)), (1, ("last_key",)))}
+    missing = sorted(want - norm)
+    extra = sorted(norm - want)
+    ctx.check(R, f, "conflict-predicate", not missing and not extra,
+              "overlapping(a, b) = a.lower <= b.upper && b.lower <= a.upper && a.first <= b.last && b.first <= a.last",
+              "the conflict predicate is not closed-interval intersection in both dimensions (missing %s, instead %s): two compactions that share a "
+              "boundary level or key can run concurrently over the same files" % (missing, extra))
+    users = K.callers_of(ctx, r"lsmtk::tree::CompactionCore::overlapping$", crates=("lsmtk",))
+    ctx.check(R, "lsmtk", "conflict-predicate-used", any(k.endswith("may_choose_compaction") for k in users), "may_choose_compaction consults it for every ongoing compaction",
+              "may_choose_compaction no longer consults the conflict predicate")
+    g = ctx.fn(R, "lsmtk::tree::Version::may_choose_compaction") if False else next((x for x in ctx.prog.fns.values() if x.skey.endswith("::may_choose_compaction")), None)
+    if g:
+        ov = P.call_points(g, r"CompactionCore::overlapping$")
+        heads = [h for h in P.call_points(g, r"Iterator>::next$") if P.reach(g, P.after(g, h), [h])]
+        for h in heads:
+            if any(P.reach(g, P.after(g, h), [o], avoid=[h]) is not None for o in ov):
+                q = P.reach(g, P.after(g, h), [h], avoid=set(ov))
+                ctx.check(R, g, "every-ongoing-checked", q is None, "every ongoing compaction is tested against the candidate", "an ongoing compaction can be skipped by the conflict test", pt=h, path=q)
+        for o in ov:
+            tr = [1 for bb, lab, srcs in K.guards(g, o) if False]
+        oks = [(b.idx, i) for b in g.blocks for i, st in enumerate(b.st) if st["s"] == "=" and st["lhs"]["l"] == 0 and st["rv"]["r"] == "use" and st["rv"]["a"].get("k") == "const" and st["rv"]["a"]["c"].get("v") in (1, True)]
+        for pt in oks:
+            # `true` is returned only after the loop ran to exhaustion: not reachable from the conflict (true) edge of overlapping
+            bad = False
+            for b in P.switch_blocks(g):
+                if any(c.endswith("CompactionCore::overlapping") for c in K.cond_calls(g, b.idx)):
+                    tgt = dict(b.succs).get("sw:1")
+                    if tgt is not None and P.reach(g, [(tgt, 0)], [pt]) is not None:
+                        bad = True
+            ctx.check(R, g, "conflict-refuses", not bad, "a conflict with an ongoing compaction refuses the candidate", "a conflicting candidate can still be chosen", pt=pt)
 
 
 def false_edges_of(f, callee_pat, arg_pred=None):
